@@ -71,6 +71,9 @@ def run(ctx):
         if t == ("param", 1):
             src_param = True
             break
+        if t[0] == "payload" and t[1] in ("Ok", "Some"):
+            t = t[2]                  # the input canonicalised element by element, collected through a Result
+            continue
         if t[0] == "call" and t[2]:
             chain.append(t)
             t = t[2][0]
@@ -99,6 +102,9 @@ def run(ctx):
             if t == ("param", 1):
                 src_param = True
                 break
+            if t[0] == "payload" and t[1] in ("Ok", "Some"):
+                t = t[2]
+                continue
             if t[0] == "call" and t[2]:
                 chain.append(t)
                 t = t[2][0]
